@@ -7,6 +7,7 @@ import (
 	"fmt"
 	"math/rand"
 
+	"src.elv.sh/pkg/eval/vals"
 	. "verifharness/coqfmt"
 	a "verifharness/props/c15"
 	"verifharness/reg"
@@ -24,14 +25,133 @@ type desc struct {
 	Exc string `json:"exc,omitempty"`
 }
 
-// Go-side picture of a value, only used to choose (mostly) valid paths
+// Go-side picture of a value, only used to choose (mostly) valid paths:
+// string | numv | bool | nilv | []val | *mapv
 type val interface{}
+type numv int
+type nilv struct{}
 type mapv struct {
-	keys []string
+	keys []val
 	vals []val
 }
 
-type gen struct{ r *rand.Rand }
+func eqVal(a, b val) bool {
+	switch a := a.(type) {
+	case string:
+		b, ok := b.(string)
+		return ok && a == b
+	case numv:
+		b, ok := b.(numv)
+		return ok && a == b
+	case bool:
+		b, ok := b.(bool)
+		return ok && a == b
+	case nilv:
+		_, ok := b.(nilv)
+		return ok
+	case []val:
+		b, ok := b.([]val)
+		if !ok || len(a) != len(b) {
+			return false
+		}
+		for i := range a {
+			if !eqVal(a[i], b[i]) {
+				return false
+			}
+		}
+		return true
+	case *mapv:
+		b, ok := b.(*mapv)
+		if !ok || len(a.keys) != len(b.keys) {
+			return false
+		}
+		for i, k := range a.keys {
+			j := b.find(k)
+			if j < 0 || !eqVal(a.vals[i], b.vals[j]) {
+				return false
+			}
+		}
+		return true
+	}
+	return false
+}
+
+func (m *mapv) find(k val) int {
+	for i, k2 := range m.keys {
+		if eqVal(k, k2) {
+			return i
+		}
+	}
+	return -1
+}
+
+// the Elvish value, to ask vals.Hash
+func toElv(v val) any {
+	switch v := v.(type) {
+	case string:
+		return v
+	case numv:
+		return int(v)
+	case bool:
+		return v
+	case nilv:
+		return nil
+	case []val:
+		items := make([]any, len(v))
+		for i, x := range v {
+			items[i] = toElv(x)
+		}
+		return vals.MakeList(items...)
+	case *mapv:
+		m := vals.EmptyMap
+		for i, k := range v.keys {
+			m = m.Assoc(toElv(k), toElv(v.vals[i]))
+		}
+		return m
+	}
+	panic("toElv")
+}
+
+// groups of 2-4 keys whose 32-bit hashes collide, found by computing vals.Hash
+var collisionGroups [][]val
+
+func init() {
+	var cands []val
+	cands = append(cands, true, false, nilv{}, "", []val{}, &mapv{})
+	for i := 0; i <= 40; i++ {
+		cands = append(cands, numv(i))
+	}
+	for _, w := range []string{"a", "b", "c", "k", "m", "x1"} {
+		cands = append(cands, w, []val{w}, []val{[]val{w}})
+	}
+	cands = append(cands, []val{[]val{}}, []val{""}, []val{numv(0)}, []val{numv(1)}, []val{true}, []val{false},
+		[]val{&mapv{}}, &mapv{keys: []val{""}, vals: []val{""}}, []val{nilv{}}, []val{"", ""}, []val{[]val{}, []val{}})
+	byHash := map[uint32][]val{}
+	var order []uint32
+	for _, c := range cands {
+		h := vals.Hash(toElv(c))
+		if _, ok := byHash[h]; !ok {
+			order = append(order, h)
+		}
+		byHash[h] = append(byHash[h], c)
+	}
+	for _, h := range order {
+		if g := byHash[h]; len(g) >= 2 {
+			if len(g) > 4 {
+				g = g[:4]
+			}
+			collisionGroups = append(collisionGroups, g)
+		}
+	}
+}
+
+type gen struct {
+	r *rand.Rand
+	// shape of the history being generated
+	collide bool // plant hash-colliding key groups
+	bigMap  int  // minimum number of keys of the top-level map (0: small)
+	bigList int  // length of the top-level list (0: small)
+}
 
 func (g *gen) n(k int) int      { return g.r.Intn(k) }
 func (g *gen) p(x float64) bool { return g.r.Float64() < x }
@@ -40,11 +160,42 @@ var words = []string{"a", "b", "c", "k", "m", "x1"}
 
 func (g *gen) word() string { return words[g.n(len(words))] }
 
+func (g *gen) mapValue(d int, minKeys int) *mapv {
+	m := &mapv{}
+	add := func(k val, v val) {
+		if m.find(k) < 0 {
+			m.keys = append(m.keys, k)
+			m.vals = append(m.vals, v)
+		}
+	}
+	if g.collide && len(collisionGroups) > 0 && (d >= 2 || g.p(0.5)) {
+		// one or two groups of colliding keys next to ordinary ones
+		for i, n := 0, 1+g.n(2); i < n; i++ {
+			grp := collisionGroups[g.n(len(collisionGroups))]
+			for _, k := range grp {
+				add(k, g.value(d-1))
+			}
+		}
+	}
+	for i, n := 0, 1+g.n(3); i < n; i++ {
+		add(g.word(), g.value(d-1))
+	}
+	for i := 0; len(m.keys) < minKeys; i++ {
+		add(fmt.Sprintf("k%d", i), g.value(0))
+	}
+	// shuffle the insertion order
+	g.r.Shuffle(len(m.keys), func(i, j int) {
+		m.keys[i], m.keys[j] = m.keys[j], m.keys[i]
+		m.vals[i], m.vals[j] = m.vals[j], m.vals[i]
+	})
+	return m
+}
+
 func (g *gen) value(d int) val {
 	if d <= 0 || g.p(0.35) {
 		return g.word()
 	}
-	if g.p(0.55) {
+	if g.p(0.5) {
 		n := 1 + g.n(3)
 		l := make([]val, n)
 		for i := range l {
@@ -52,19 +203,7 @@ func (g *gen) value(d int) val {
 		}
 		return l
 	}
-	m := &mapv{}
-	for i, n := 0, 1+g.n(3); i < n; i++ {
-		k := g.word()
-		dup := false
-		for _, k2 := range m.keys {
-			dup = dup || k2 == k
-		}
-		if !dup {
-			m.keys = append(m.keys, k)
-			m.vals = append(m.vals, g.value(d-1))
-		}
-	}
-	return m
+	return g.mapValue(d, 0)
 }
 
 func s(x string) a.Expr { return a.EStr{S: x} }
@@ -73,6 +212,16 @@ func valExpr(v val) a.Expr {
 	switch v := v.(type) {
 	case string:
 		return s(v)
+	case numv:
+		// a typed number: (+ n)
+		return a.ECapture{C: a.Chunk{{a.CBuiltin{B: "+", Args: []a.Expr{s(fmt.Sprint(int(v)))}}}}}
+	case bool:
+		if v {
+			return a.EVar{X: a.ConstTrue}
+		}
+		return a.EVar{X: a.ConstFalse}
+	case nilv:
+		return a.EVar{X: a.ConstNil}
 	case []val:
 		es := make([]a.Expr, len(v))
 		for i, x := range v {
@@ -82,7 +231,7 @@ func valExpr(v val) a.Expr {
 	case *mapv:
 		m := a.EMap{}
 		for i, k := range v.keys {
-			m.Ks = append(m.Ks, s(k))
+			m.Ks = append(m.Ks, valExpr(k))
 			m.Vs = append(m.Vs, valExpr(v.vals[i]))
 		}
 		return m
@@ -94,6 +243,12 @@ func valCoq(v val) string {
 	switch v := v.(type) {
 	case string:
 		return App("VStr", Str(v))
+	case numv:
+		return App("VNum", Z(int64(v)))
+	case bool:
+		return App("VBool", Bool(v))
+	case nilv:
+		return "VNil"
 	case []val:
 		items := make([]string, len(v))
 		for i, x := range v {
@@ -103,48 +258,48 @@ func valCoq(v val) string {
 	case *mapv:
 		items := make([]string, len(v.keys))
 		for i, k := range v.keys {
-			items[i] = Pair(App("VStr", Str(k)), valCoq(v.vals[i]))
+			items[i] = Pair(valCoq(k), valCoq(v.vals[i]))
 		}
 		return App("VMap", List(items))
 	}
 	panic("valCoq")
 }
 
-func clone(v val) val {
-	switch v := v.(type) {
-	case []val:
-		l := make([]val, len(v))
-		for i, x := range v {
-			l[i] = clone(x)
+// is k one of a group of colliding keys present in m?
+func (g *gen) collidingKeys(m *mapv) []int {
+	var out []int
+	for _, grp := range collisionGroups {
+		var here []int
+		for _, k := range grp {
+			if i := m.find(k); i >= 0 {
+				here = append(here, i)
+			}
 		}
-		return l
-	case *mapv:
-		m := &mapv{keys: append([]string{}, v.keys...)}
-		for _, x := range v.vals {
-			m.vals = append(m.vals, clone(x))
+		if len(here) >= 2 {
+			out = append(out, here...)
 		}
-		return m
 	}
-	return v
+	return out
 }
 
 // a path into v; del = the last container must be a map; may be made invalid
-func (g *gen) path(v val, del bool) []string {
-	var p []string
+func (g *gen) path(v val, del bool) []val {
+	var p []val
 	cur := v
 	for depth := 0; depth < 4; depth++ {
 		switch c := cur.(type) {
-		case string:
-			if len(p) == 0 || g.p(0.1) {
-				p = append(p, "0") // element of a string: not assignable here
-			}
-			return p
 		case []val:
 			if len(c) == 0 {
-				p = append(p, "0")
-				return p
+				return append(p, "0")
 			}
 			i := g.n(len(c))
+			if len(c) > 8 {
+				// positions around the chunk boundaries of the persistent vector
+				b := []int{0, 30, 31, 32, 33, 1022, 1023, 1024, 1025, 1055, len(c) - 2, len(c) - 1}
+				if j := b[g.n(len(b))]; j >= 0 && j < len(c) && g.p(0.8) {
+					i = j
+				}
+			}
 			ix := fmt.Sprint(i)
 			if g.p(0.25) {
 				ix = fmt.Sprint(i - len(c))
@@ -156,22 +311,31 @@ func (g *gen) path(v val, del bool) []string {
 			p = append(p, ix)
 			cur = c[i]
 		case *mapv:
-			if len(c.keys) == 0 || g.p(0.2) {
-				p = append(p, g.word()) // possibly a new key
-				return p
+			if len(c.keys) == 0 || g.p(0.12) {
+				// possibly a new key, sometimes one that collides with keys present
+				if g.collide && g.p(0.5) && len(collisionGroups) > 0 {
+					grp := collisionGroups[g.n(len(collisionGroups))]
+					return append(p, grp[g.n(len(grp))])
+				}
+				return append(p, g.word())
 			}
 			i := g.n(len(c.keys))
+			if ck := g.collidingKeys(c); len(ck) > 0 && g.p(0.7) {
+				i = ck[g.n(len(ck))] // first / middle / last of a colliding group
+			}
 			p = append(p, c.keys[i])
 			cur = c.vals[i]
-		}
-		if g.p(0.4) {
-			if !del {
-				return p
+		default:
+			if len(p) == 0 || g.p(0.1) {
+				p = append(p, "0") // element of a non-container: not assignable
 			}
+			return p
+		}
+		if g.p(0.45) && !del {
+			return p
 		}
 		if del {
-			if _, ok := cur.(*mapv); !ok && len(p) > 0 {
-				// stop one level up if the parent is a map (valid deletion), else go on
+			if _, ok := cur.(*mapv); !ok || g.p(0.5) {
 				return p
 			}
 		}
@@ -179,21 +343,30 @@ func (g *gen) path(v val, del bool) []string {
 	return p
 }
 
+func listIndex(ix val, n int) (int, bool) {
+	sx, ok := ix.(string)
+	if !ok {
+		return 0, false
+	}
+	var i int
+	if _, err := fmt.Sscanf(sx, "%d", &i); err != nil {
+		return 0, false
+	}
+	if i < 0 {
+		i += n
+	}
+	return i, i >= 0 && i < n
+}
+
 // sequential (reference) semantics on the Go-side picture; ok=false if it raises
-func assoc(v val, p []string, nv val) (val, bool) {
+func assoc(v val, p []val, nv val) (val, bool) {
 	if len(p) == 0 {
 		return nv, true
 	}
 	switch c := v.(type) {
 	case []val:
-		var i int
-		if _, err := fmt.Sscanf(p[0], "%d", &i); err != nil {
-			return v, false
-		}
-		if i < 0 {
-			i += len(c)
-		}
-		if i < 0 || i >= len(c) {
+		i, ok := listIndex(p[0], len(c))
+		if !ok {
 			return v, false
 		}
 		sub, ok := assoc(c[i], p[1:], nv)
@@ -204,25 +377,23 @@ func assoc(v val, p []string, nv val) (val, bool) {
 		l[i] = sub
 		return l, true
 	case *mapv:
-		for i, k := range c.keys {
-			if k == p[0] {
-				sub, ok := assoc(c.vals[i], p[1:], nv)
-				if !ok {
-					return v, false
-				}
-				m := &mapv{keys: append([]string{}, c.keys...), vals: append([]val{}, c.vals...)}
-				m.vals[i] = sub
-				return m, true
+		if i := c.find(p[0]); i >= 0 {
+			sub, ok := assoc(c.vals[i], p[1:], nv)
+			if !ok {
+				return v, false
 			}
+			m := &mapv{keys: append([]val{}, c.keys...), vals: append([]val{}, c.vals...)}
+			m.vals[i] = sub
+			return m, true
 		}
 		if len(p) == 1 {
-			return &mapv{keys: append(append([]string{}, c.keys...), p[0]), vals: append(append([]val{}, c.vals...), nv)}, true
+			return &mapv{keys: append(append([]val{}, c.keys...), p[0]), vals: append(append([]val{}, c.vals...), nv)}, true
 		}
 	}
 	return v, false
 }
 
-func dissoc(v val, p []string) (val, bool) {
+func dissoc(v val, p []val) (val, bool) {
 	if len(p) == 1 {
 		m, ok := v.(*mapv)
 		if !ok {
@@ -230,7 +401,7 @@ func dissoc(v val, p []string) (val, bool) {
 		}
 		out := &mapv{}
 		for i, k := range m.keys {
-			if k != p[0] {
+			if !eqVal(k, p[0]) {
 				out.keys = append(out.keys, k)
 				out.vals = append(out.vals, m.vals[i])
 			}
@@ -239,12 +410,8 @@ func dissoc(v val, p []string) (val, bool) {
 	}
 	switch c := v.(type) {
 	case []val:
-		var i int
-		fmt.Sscanf(p[0], "%d", &i)
-		if i < 0 {
-			i += len(c)
-		}
-		if i < 0 || i >= len(c) {
+		i, ok := listIndex(p[0], len(c))
+		if !ok {
 			return v, false
 		}
 		sub, ok := dissoc(c[i], p[1:])
@@ -255,69 +422,122 @@ func dissoc(v val, p []string) (val, bool) {
 		l[i] = sub
 		return l, true
 	case *mapv:
-		for i, k := range c.keys {
-			if k == p[0] {
-				sub, ok := dissoc(c.vals[i], p[1:])
-				if !ok {
-					return v, false
-				}
-				m := &mapv{keys: append([]string{}, c.keys...), vals: append([]val{}, c.vals...)}
-				m.vals[i] = sub
-				return m, true
+		if i := c.find(p[0]); i >= 0 {
+			sub, ok := dissoc(c.vals[i], p[1:])
+			if !ok {
+				return v, false
 			}
+			m := &mapv{keys: append([]val{}, c.keys...), vals: append([]val{}, c.vals...)}
+			m.vals[i] = sub
+			return m, true
 		}
 	}
 	return v, false
 }
 
-func pathExprs(p []string) []a.Expr {
+func pathExprs(p []val) []a.Expr {
 	es := make([]a.Expr, len(p))
 	for i, x := range p {
-		es[i] = s(x)
+		es[i] = valExpr(x)
 	}
 	return es
 }
 
-func pathCoq(p []string) string {
+func pathCoq(p []val) string {
 	items := make([]string, len(p))
 	for i, x := range p {
-		items[i] = App("VStr", Str(x))
+		items[i] = valCoq(x)
 	}
 	return List(items)
 }
 
 const (
 	vx      = 0
+	rbMap   = 1 // locals of the re-building function
+	rbKey   = 2
 	aliasV  = 10
 	closV   = 40
 	outV    = 70
+	boxV    = 100
 	mkFn    = a.FnBase
+	rbFn    = a.FnBase + 1
 	mkParam = a.OptBase
+	rbParam = a.OptBase + 1
+	rbElem  = a.OptBase + 2
 )
 
 func v(i int) a.Expr { return a.EVar{X: i} }
 
 func put(es ...a.Expr) a.Pipeline { return a.Pipeline{a.CBuiltin{B: "put", Args: es}} }
 
+func capture(c a.Cmd) a.Expr { return a.ECapture{C: a.Chunk{{c}}} }
+
+// history builds the program and the step descriptions.
 func history(g *gen, nsteps int, plantMulti bool) (a.Chunk, []string, string) {
-	cur := g.value(3)
-	if _, ok := cur.(string); ok {
-		cur = []val{cur, g.value(2)}
+	var cur val
+	switch {
+	case g.bigList > 0:
+		l := make([]val, g.bigList)
+		for i := range l {
+			l[i] = "a"
+		}
+		for i, n := 0, 2+g.n(3); i < n; i++ {
+			l[g.n(len(l))] = g.value(1)
+		}
+		cur = l
+	case g.bigMap > 0 || g.collide:
+		cur = g.mapValue(3, g.bigMap)
+	default:
+		cur = g.value(3)
+		if _, ok := cur.(string); ok {
+			cur = []val{cur, g.value(2)}
+		}
+	}
+	_, isMap := cur.(*mapv)
+	// re-building an alias from its own iteration
+	var rebuild a.Chunk
+	if isMap {
+		// fn f1 {|o1| var v1 = [&]; for v2 [(keys $o1)] { set v1[$v2] = $o1[$v2] }; put $v1 }
+		rebuild = a.Chunk{
+			{a.CVar{Lvs: []a.LValue{{X: rbMap}}, Rhs: []a.Expr{a.EMap{}}, HasRhs: true}},
+			{a.CFor{Decl: true, X: rbKey, E: a.EList{Es: []a.Expr{capture(a.CBuiltin{B: "keys", Args: []a.Expr{v(rbParam)}})}},
+				Body: a.Chunk{{a.CSet{Lvs: []a.LValue{{X: rbMap, Ix: []a.Expr{v(rbKey)}}},
+					Rhs: []a.Expr{a.EIndex{E: v(rbParam), Ix: []a.Expr{v(rbKey)}}}}}}}},
+			put(v(rbMap))}
+	} else if g.p(0.5) {
+		// fn f1 {|o1| put [(all $o1)] }
+		rebuild = a.Chunk{put(a.EList{Es: []a.Expr{capture(a.CBuiltin{B: "all", Args: []a.Expr{v(rbParam)}})}})}
+	} else {
+		// fn f1 {|o1| put [(each {|o2| put $o2 } $o1)] }
+		rebuild = a.Chunk{put(a.EList{Es: []a.Expr{capture(a.CBuiltin{B: "each", Args: []a.Expr{
+			a.ELam{Sig: a.Sig{Args: []int{rbElem}, Rest: -1}, Body: a.Chunk{put(v(rbElem))}}, v(rbParam)}})}})}
 	}
 	prog := a.Chunk{
 		{a.CVar{Lvs: []a.LValue{{X: vx}}, Rhs: []a.Expr{valExpr(cur)}, HasRhs: true}},
 		// fn f0 {|o0| put { put $o0 } }: a closure that captured the value
 		{a.CFn{F: mkFn, Sig: a.Sig{Args: []int{mkParam}, Rest: -1}, Body: a.Chunk{put(a.ELam{Sig: a.Sig{Rest: -1}, Body: a.Chunk{put(v(mkParam))}})}}},
+		{a.CFn{F: rbFn, Sig: a.Sig{Args: []int{rbParam}, Rest: -1}, Body: rebuild}},
 		put(a.EList{Es: []a.Expr{s("I"), v(vx)}}),
 	}
+	rb := func(e a.Expr) a.Expr { return capture(a.CCmd{F: rbFn, Args: []a.Expr{e}}) }
 	var steps []string
 	class := "history"
+	switch {
+	case g.bigList > 0:
+		class = "big-list"
+	case g.bigMap > 0:
+		class = "big-map"
+	case g.collide:
+		class = "colliding-keys"
+	}
 	for i := 0; i < nsteps; i++ {
-		// aliases taken before the step
+		// aliases taken before the step: other variable, closure capture, captured
+		// output, outer container
 		prog = append(prog,
 			a.Pipeline{a.CVar{Lvs: []a.LValue{{X: aliasV + i}}, Rhs: []a.Expr{v(vx)}, HasRhs: true}},
-			a.Pipeline{a.CVar{Lvs: []a.LValue{{X: closV + i}}, Rhs: []a.Expr{a.ECapture{C: a.Chunk{{a.CCmd{F: mkFn, Args: []a.Expr{v(vx)}}}}}}, HasRhs: true}},
-			a.Pipeline{a.CVar{Lvs: []a.LValue{{X: outV + i}}, Rhs: []a.Expr{a.EList{Es: []a.Expr{a.ECapture{C: a.Chunk{put(v(vx))}}}}}, HasRhs: true}})
+			a.Pipeline{a.CVar{Lvs: []a.LValue{{X: closV + i}}, Rhs: []a.Expr{capture(a.CCmd{F: mkFn, Args: []a.Expr{v(vx)}})}, HasRhs: true}},
+			a.Pipeline{a.CVar{Lvs: []a.LValue{{X: outV + i}}, Rhs: []a.Expr{a.EList{Es: []a.Expr{a.ECapture{C: a.Chunk{put(v(vx))}}}}}, HasRhs: true}},
+			a.Pipeline{a.CVar{Lvs: []a.LValue{{X: boxV + i}}, Rhs: []a.Expr{a.EMap{Ks: []a.Expr{s("k")}, Vs: []a.Expr{v(vx)}}}, HasRhs: true}})
 		is := fmt.Sprint(i)
 		inside := put(a.EList{Es: []a.Expr{s("In"), s(is), v(vx)}})
 		var st a.Cmd
@@ -332,14 +552,16 @@ func history(g *gen, nsteps int, plantMulti bool) (a.Chunk, []string, string) {
 			nv2 := g.value(1)
 			st = a.CSet{Lvs: []a.LValue{{X: vx, Ix: pathExprs(p1)}, {X: vx, Ix: pathExprs(p2)}}, Rhs: []a.Expr{valExpr(nv), valExpr(nv2)}}
 			steps = append(steps, App("SMulti", pathCoq(p1), valCoq(nv), pathCoq(p2), valCoq(nv2)))
-			if mid, ok := assoc(cur, p1, nv); ok {
-				cur = mid
-				if fin, ok := assoc(cur, p2, nv2); ok {
+			// what the implementation does: the second assoc starts from the old container
+			if fin, ok := assoc(cur, p2, nv2); ok {
+				if _, ok1 := assoc(cur, p1, nv); ok1 {
 					cur = fin
 				}
+			} else if mid, ok := assoc(cur, p1, nv); ok {
+				cur = mid
 			}
 			class = "multi-elem-lvalue-same-var"
-		case k < 5:
+		case k < 4:
 			p := g.path(cur, false)
 			st = a.CSet{Lvs: []a.LValue{{X: vx, Ix: pathExprs(p)}}, Rhs: []a.Expr{valExpr(nv)}}
 			steps = append(steps, App("SSet", pathCoq(p), valCoq(nv)))
@@ -364,15 +586,21 @@ func history(g *gen, nsteps int, plantMulti bool) (a.Chunk, []string, string) {
 			steps = append(steps, App("SWith", pathCoq(p), valCoq(nv)))
 		}
 		prog = append(prog, a.Pipeline{a.CTry{Body: a.Chunk{{st}}, HasCatch: true, CatchVar: -1, Catch: a.Chunk{}}})
-		// observe the variable and every alias taken so far
+		// observe the variable and every alias taken so far: the values, then
+		// count and iteration
 		row := []a.Expr{s("P"), s(is), v(vx)}
+		crow := []a.Expr{s("C"), s(is)}
 		for j := 0; j <= i; j++ {
+			callClos := a.ECapture{C: a.Chunk{{a.CCall{Head: v(closV + j)}}}}
+			boxed := a.EIndex{E: v(boxV + j), Ix: []a.Expr{s("k")}}
 			row = append(row, a.EList{Es: []a.Expr{
-				v(aliasV + j),
-				a.ECapture{C: a.Chunk{{a.CCall{Head: v(closV + j)}}}},
-				a.EIndex{E: v(outV + j), Ix: []a.Expr{s("0")}}}})
+				v(aliasV + j), callClos,
+				a.EIndex{E: v(outV + j), Ix: []a.Expr{s("0")}}, boxed}})
+			crow = append(crow, a.EList{Es: []a.Expr{
+				capture(a.CBuiltin{B: "count", Args: []a.Expr{v(aliasV + j)}}),
+				rb(v(aliasV + j)), rb(callClos), rb(boxed)}})
 		}
-		prog = append(prog, put(a.EList{Es: row}))
+		prog = append(prog, put(a.EList{Es: row}), put(a.EList{Es: crow}))
 	}
 	return prog, steps, class
 }
@@ -402,13 +630,31 @@ func emit(c *reg.Ctx, prog a.Chunk, steps []string, class string) {
 }
 
 func run(c *reg.Ctx) {
-	g := &gen{r: c.Rand}
+	// the colliding groups found by vals.Hash are part of the evidence
+	c.Dist["collision-groups-found"] = len(collisionGroups)
 	for i := 0; i < c.N; i++ {
+		g := &gen{r: c.Rand}
 		n := 2 + g.n(7)
-		if c.Tier == "thorough" && i%10 == 0 {
-			n = 30
+		switch i % 10 {
+		case 1, 4, 7:
+			g.collide = true
+		case 2:
+			g.collide = true
+			g.bigMap = []int{9, 17, 20}[g.n(3)]
+			n = 2 + g.n(3)
+		case 5:
+			g.bigList = []int{31, 32, 33, 34, 40}[g.n(5)]
+			n = 2 + g.n(3)
+		case 8:
+			if i%50 == 8 || c.Tier == "thorough" {
+				g.bigList = []int{1024, 1025, 1056, 1057}[g.n(4)]
+				n = 2
+			}
 		}
-		prog, steps, class := history(g, n, i%15 == 7)
+		if c.Tier == "thorough" && i%10 == 0 {
+			n = 25
+		}
+		prog, steps, class := history(g, n, i%15 == 3)
 		emit(c, prog, steps, class)
 	}
 }
